@@ -393,6 +393,11 @@ func fudge(x interface{}) interface{} {
 		return float64(vv)
 	case int:
 		return float64(vv)
+	case Bindings:
+		// Bindings stored as a value (say "lastBindings") should
+		// match like the plain map they become when a state is
+		// written out as JSON and read back.
+		return map[string]interface{}(vv)
 	default:
 		return x
 	}
@@ -525,6 +530,10 @@ func (m *Matcher) match(pattern interface{}, fact interface{}, bindings Bindings
 			fxs := make(map[interface{}]bool)
 			fxa := make(map[int]interface{})
 			for i, y := range fa {
+				// An action can return (say) an int64 in an
+				// array.  Treat it as the float64 it would be
+				// after a JSON round trip.
+				y = fudge(y)
 				switch y.(type) {
 				case float64, string, bool, nil:
 					fxs[y] = true
@@ -538,6 +547,7 @@ func (m *Matcher) match(pattern interface{}, fact interface{}, bindings Bindings
 
 			// iterate pattern values and match with fact values
 			for _, x := range xs {
+				x = fudge(x)
 				switch x.(type) {
 				case float64, string, bool, nil:
 					_, found := fxs[x]
